@@ -1,10 +1,20 @@
 // Package oauthdrv replays behaviours of spec/OAuth.tla on a whole in-process Nuts node (C02).
 //
-// The harness is the OAuth2 client / wallet: it owns did:jwk identities, issues credentials (own did:jwk issuer and an
-// issuer subject on the node for revocable credentials), builds presentations in both proof formats with the defect flags
-// of the behaviour, posts them to /oauth2/{subject}/token and /oauth2/{subject}/response, introspects the tokens and
-// evaluates the statement of C02 on what the node answered.  One event per request is recorded for trace validation
-// against spec/TraceOAuth.tla.
+// The harness is the OAuth2 client / wallet: it owns did:jwk identities, issues credentials (own did:jwk issuer, and an
+// issuer subject on the node for revocable StatusList2021 credentials), builds presentations in both proof formats with
+// the defect flags of the behaviour, posts them to /oauth2/{subject}/token (vp_token-bearer and authorization_code) and
+// /oauth2/{subject}/response, starts authorization-code sessions at the real /authorize endpoint (signed request object,
+// PKCE), introspects the tokens through both introspection endpoints and evaluates the statement of C02 on what the node
+// answered:
+//   - a token for a request with a defect flag, a replayed presentation or a reused nonce/code is a violation;
+//   - "active" for a token the node did not issue or that has expired is a violation;
+//   - iss, client_id, scope, cnf, iat/exp and the claims of an active answer must be the ones established at issuance,
+//     and no top-level member of the answer may carry a credential-derived value.
+//
+// Token expiry (15 min) is realised by moving the timestamps of the stored token back ("Age"); the presentation validity
+// and nonce windows run in real time ("Tick").  One event per request is recorded for trace validation against
+// spec/TraceOAuth.tla.  Nothing here decides what the node SHOULD answer for drift purposes: the expected answers come
+// with the behaviour (fields res/stage of a step) and only produce DRIFT notes.
 package oauthdrv
 
 import (
@@ -25,7 +35,6 @@ import (
 	"net/url"
 	"os"
 	"path/filepath"
-	"reflect"
 	"sort"
 	"strings"
 	"sync"
@@ -195,10 +204,10 @@ const (
 	issuerSubj   = "issuer"
 )
 
-func (w *world) asURL() string                 { return w.public + "/oauth2/" + asSubject }
-func (w *world) clientID(c string) string      { return w.public + "/oauth2/" + clientSubject(c) }
-func clientSubject(c string) string            { return "client-" + c }
-func (w *world) s2sClientID(c string) string   { return "https://client.example/oauth2/" + c }
+func (w *world) asURL() string               { return w.public + "/oauth2/" + asSubject }
+func (w *world) clientID(c string) string    { return w.public + "/oauth2/" + clientSubject(c) }
+func clientSubject(c string) string          { return "client-" + c }
+func (w *world) s2sClientID(c string) string { return "https://client.example/oauth2/" + c }
 
 func newWorld(t *testing.T, in input) *world {
 	w := &world{in: in, dk: map[string]*dpopKey{}, creds: map[string]vc.VerifiableCredential{}, defs: map[string]pe.WalletOwnerMapping{},
@@ -481,9 +490,9 @@ func (w *world) cred(kind, format string, h *ident, variant int) (vc.VerifiableC
 // ------------------------------------------------------------------------------------------ presentations
 
 type vpSpec struct {
-	signer    *ident  // whose key signs
-	claimedAs *ident  // whose key id / holder is claimed (== signer unless "wrong key")
-	holder    *ident  // holder property
+	signer    *ident // whose key signs
+	claimedAs *ident // whose key id / holder is claimed (== signer unless "wrong key")
+	holder    *ident // holder property
 	creds     []vc.VerifiableCredential
 	format    string // "ldp" | "jwt"
 	created   time.Time
@@ -702,7 +711,12 @@ func (w *world) buildPresentation(st step, flow string, nonce string, audience s
 		}
 	}
 	if has(d, "unfulfilled") {
-		switch st.variant("unfulfilled", 3) {
+		uv := st.variant("unfulfilled", 3)
+		if uv == 1 && has(d, "forgedmap") {
+			// credentials of swapped types and a descriptor map with swapped ids would add up to a VALID submission
+			uv = 0
+		}
+		switch uv {
 		case 0: // constraint field missing
 			for i, k := range kinds {
 				if k == "org" {
@@ -835,8 +849,14 @@ func (w *world) buildPresentation(st step, flow string, nonce string, audience s
 			return nil, err
 		}
 		e2 := exp
+		// vp_token-bearer burns the nonce of every presentation, so a second presentation needs one of its own;
+		// the authorization response must carry the session's nonce in all presentations
+		nonce2 := nonce
+		if flow == "s2s" {
+			nonce2 = nutsCrypto.GenerateNonce()
+		}
 		raw2, err := w.buildVP(vpSpec{signer: w.h2, holder: w.h2, creds: []vc.VerifiableCredential{c2}, format: st.Fmt, created: created,
-			expires: &e2, nonce: &nonce, audience: &audience})
+			expires: &e2, nonce: &nonce2, audience: &audience})
 		if err != nil {
 			return nil, err
 		}
@@ -858,6 +878,16 @@ func jsonEntry(raw string) string {
 	}
 	b, _ := json.Marshal(raw)
 	return string(b)
+}
+
+func removeStr(l []string, s string) []string {
+	var out []string
+	for _, x := range l {
+		if x != s {
+			out = append(out, x)
+		}
+	}
+	return out
 }
 
 func containsStr(l []string, s string) bool {
@@ -1008,7 +1038,8 @@ type tokenRec struct {
 	cnfKey   string
 	def      string
 	claims   map[string]interface{}
-	issuedAt time.Time
+	issuedAt time.Time // the request left the harness
+	recvAt   time.Time // the answer arrived
 	shift    time.Duration
 	vps      int
 	defID    string
@@ -1017,7 +1048,7 @@ type tokenRec struct {
 
 type sessRec struct {
 	id, client, def, verifier, state, nonce, responseURI, audience, scope, code string
-	usedCode                                                                     bool
+	usedCode                                                                    bool
 }
 
 type runner struct {
@@ -1036,6 +1067,8 @@ type runner struct {
 }
 
 type sentReq struct {
+	sentAt   time.Time
+	recvAt   time.Time
 	id       string
 	form     url.Values
 	headers  map[string]string
@@ -1063,6 +1096,7 @@ const rtOffset = 2500 * time.Millisecond
 const rtTolerance = 1100 * time.Millisecond
 
 var errLate = errors.New("schedule missed")
+var errStop = errors.New("script ends here")
 
 func (r *runner) waitFor() {
 	if !r.sc.Realtime {
@@ -1103,7 +1137,9 @@ func (r *runner) nonceBurnt(n string) bool {
 }
 
 func (r *runner) sendToken(sr *sentReq) (outcome, error) {
+	sr.sentAt = time.Now()
 	rep, err := r.w.post(r.w.asURL()+"/token", sr.form, sr.headers)
+	sr.recvAt = time.Now()
 	if err != nil {
 		return outcome{}, err
 	}
@@ -1118,14 +1154,14 @@ func (r *runner) sendToken(sr *sentReq) (outcome, error) {
 	return o, nil
 }
 
-func (r *runner) recordToken(i int, st step, o outcome, flow string, client, scope, dpopKey, def string, p *presentation, clean bool) string {
+func (r *runner) recordToken(i int, st step, sr *sentReq, o outcome, flow string, client, scope, dpopKey, def string, p *presentation, clean bool) string {
 	// tokens are named in the order the node issued them (the model does the same)
 	id := fmt.Sprintf("t%d", len(r.tokens)+1)
 	if st.Tok != "" && st.Tok != id {
 		r.drift("step %d: the model names this token %s, the node issued its token number %d", i, st.Tok, len(r.tokens)+1)
 	}
 	tr := &tokenRec{id: id, token: o.token, flow: flow, iss: r.w.asURL(), client: client, scope: scope, def: def,
-		issuedAt: time.Now(), clean: clean}
+		issuedAt: sr.sentAt, recvAt: sr.recvAt, clean: clean}
 	if p != nil {
 		tr.claims, tr.vps = p.expected, p.vps
 	}
@@ -1214,7 +1250,7 @@ func (r *runner) stepS2S(i int, st step, replay bool) error {
 		}
 		sr.accepted = true
 		r.issuedBy[nonceVal] = time.Now()
-		tokID = r.recordToken(i, st, o, "s2s", w.s2sClientID(sr.st.Client), sr.p.scope, dpopKeyOf(sr.st), sr.st.Def, sr.p, clean)
+		tokID = r.recordToken(i, st, sr, o, "s2s", w.s2sClientID(sr.st.Client), sr.p.scope, dpopKeyOf(sr.st), sr.st.Def, sr.p, clean)
 		if clean {
 			r.res.CleanOK++
 		}
@@ -1285,7 +1321,9 @@ func b64json(seg string) map[string]interface{} {
 	return m
 }
 
-func (r *runner) stepAuthorize(i int, st step) error {
+// authorize starts an authorization-code session at the real authorization endpoint (signed request object, PKCE) and
+// plays the wallet's first move: it fetches the verifier's request object (nonce, state, response_uri).
+func (r *runner) authorize(i int, st step) (*sessRec, error) {
 	w := r.w
 	cs := clientSubject(st.Client)
 	verifier := nutsCrypto.GenerateNonce()
@@ -1303,24 +1341,23 @@ func (r *runner) stepAuthorize(i int, st step) error {
 	}
 	jar, err := w.keyStore.SignJWT(w.ctx, claims, nil, w.clientKid[cs])
 	if err != nil {
-		return fmt.Errorf("sign request object: %w", err)
+		return nil, fmt.Errorf("sign request object: %w", err)
 	}
 	q := url.Values{"client_id": {w.clientID(st.Client)}, "request": {jar}}
 	req, _ := http.NewRequest(http.MethodGet, w.asURL()+"/authorize?"+q.Encode(), nil)
 	req.Header.Set("Accept", "application/json")
 	rep, err := w.do(req)
 	if err != nil {
-		return err
+		return nil, err
 	}
 	s := &sessRec{id: st.S, client: st.Client, def: st.Def, verifier: verifier, scope: scope}
-	r.sess[st.S] = s
 	ok := false
 	if rep.status == http.StatusFound && rep.loc != nil && rep.loc.Query().Get("request_uri") != "" {
 		// the wallet side: fetch the verifier's request object
 		req2, _ := http.NewRequest(http.MethodGet, rep.loc.Query().Get("request_uri"), nil)
 		rep2, err := w.do(req2)
 		if err != nil {
-			return err
+			return nil, err
 		}
 		parts := strings.Split(strings.TrimSpace(string(rep2.body)), ".")
 		if rep2.status == 200 && len(parts) == 3 {
@@ -1339,8 +1376,17 @@ func (r *runner) stepAuthorize(i int, st step) error {
 		r.drift("step %d: authorization request refused: %d %s %s", i, rep.status, e, dsc)
 	}
 	if !ok {
-		return fmt.Errorf("authorization request of a valid client was not accepted (status %d)", rep.status)
+		return nil, fmt.Errorf("authorization request of a valid client was not accepted (status %d)", rep.status)
 	}
+	return s, nil
+}
+
+func (r *runner) stepAuthorize(i int, st step) error {
+	s, err := r.authorize(i, st)
+	if err != nil {
+		return err
+	}
+	r.sess[st.S] = s
 	r.res.Trace = append(r.res.Trace, map[string]interface{}{"ev": "authorize", "s": st.S, "client": st.Client, "def": orPlain(st.Def), "res": "ok"})
 	return nil
 }
@@ -1353,7 +1399,19 @@ func (r *runner) stepAuthzResponse(i int, st step) error {
 	}
 	st.Def = s.def
 	st.PD2 = s.scope == "s2"
-	p, err := w.buildPresentation(st, "code", s.nonce, s.audience, time.Now().Add(-200*time.Millisecond))
+	nonce := s.nonce
+	dOrig := st.D
+	if has(st.D, "badnonce") && st.variant("badnonce", 2) == 1 {
+		// not a nonce of nobody, but the nonce of another live session of the same client
+		side, err := r.authorize(i, step{Client: s.client, Def: s.def, PD2: st.PD2, S: "side"})
+		if err != nil {
+			return err
+		}
+		nonce = side.nonce
+		st.D = removeStr(st.D, "badnonce")
+	}
+	p, err := w.buildPresentation(st, "code", nonce, s.audience, time.Now().Add(-200*time.Millisecond))
+	st.D = dOrig
 	if err != nil {
 		return err
 	}
@@ -1392,11 +1450,17 @@ func (r *runner) stepAuthzResponse(i int, st step) error {
 		}
 		s.code = o.code
 		s.usedCode = false
-		if len(d) > 0 {
-			// the code is only the intermediate artefact; the violation is raised when a token is issued for it
-			r.drift("step %d: authorization code issued for a response with defects %v", i, d)
-		}
 		sessDefects(r, s.id, d, p)
+		if len(d) > 0 {
+			// The code is only the intermediate artefact. The harness redeems it at once with a valid token request:
+			// a token for it is the violation of C02. The rest of the script is not meaningful any more.
+			r.drift("step %d: authorization code issued for a response with defects %v", i, d)
+			r.res.Trace = append(r.res.Trace, map[string]interface{}{"ev": "authzresp", "s": st.S, "d": d, "fmt": st.Fmt, "res": "code", "stage": "code"})
+			if err := r.stepCodeToken(i, step{A: "CodeToken", S: st.S, Dpop: "none"}); err != nil {
+				return err
+			}
+			return errStop
+		}
 	} else if len(d) == 0 && st.Res == "code" {
 		r.res.CleanFail++
 		r.drift("step %d: clean authorization response rejected: %s %s", i, o.err, o.desc)
@@ -1495,7 +1559,7 @@ func (r *runner) stepCodeToken(i int, st step) error {
 		if si != nil {
 			p = si.p
 		}
-		tokID = r.recordToken(i, st, o, "code", w.clientID(s.client), s.scope, dpopKeyOf(st), s.def, p, len(all) == 0)
+		tokID = r.recordToken(i, st, sr, o, "code", w.clientID(s.client), s.scope, dpopKeyOf(st), s.def, p, len(all) == 0)
 		if len(all) == 0 {
 			r.res.CleanOK++
 		}
@@ -1634,16 +1698,17 @@ func (r *runner) stepIntrospect(i int, st step) error {
 	// iat / exp
 	iat, iok := a["iat"].(float64)
 	exp, eok := a["exp"].(float64)
-	wantIat := tr.issuedAt.Add(-tr.shift)
+	// the node stamped the token between the moment the request left and the moment the answer arrived
+	iatLo, iatHi := tr.issuedAt.Add(-tr.shift).Unix()-2, tr.recvAt.Add(-tr.shift).Unix()+2
 	for _, m := range []string{"iat", "exp"} {
 		if v, present := a[m]; present && isCred(v) && tr.def == m {
 			over = append(over, m)
 		}
 	}
 	if !containsStr(over, "iat") && !containsStr(over, "exp") {
-		if !iok || !eok || exp-iat != 900 || iat < float64(wantIat.Unix()-3) || iat > float64(wantIat.Unix()+3) {
+		if !iok || !eok || exp-iat != 900 || iat < float64(iatLo) || iat > float64(iatHi) {
 			r.violate(i, "introspection-mismatch", map[string]interface{}{"member": "iat/exp"},
-				fmt.Sprintf("token %s: iat=%v exp=%v, issued at %d with a validity of 900s", tr.id, a["iat"], a["exp"], wantIat.Unix()))
+				fmt.Sprintf("token %s: iat=%v exp=%v, issued between %d and %d with a validity of 900s", tr.id, a["iat"], a["exp"], iatLo, iatHi))
 		}
 	}
 	// every other top-level member: a typed member of the answer must never carry a credential-derived value;
@@ -1804,7 +1869,7 @@ func (w *world) runScript(sc script) (res result) {
 		default:
 			err = fmt.Errorf("unknown action %s", st.A)
 		}
-		if err == errLate {
+		if err == errLate || err == errStop {
 			return
 		}
 		if err != nil {
@@ -1928,6 +1993,3 @@ func TestDriver(t *testing.T) {
 	}
 	wg.Wait()
 }
-
-var _ = errors.New
-var _ = reflect.DeepEqual
